@@ -219,7 +219,7 @@ def c20_run(c):
     hdir = os.path.dirname(os.path.dirname(c["exe"])) if False else None
     # harness source directory: the one the main build used
     src = os.path.join(c["build"], "alt-" + hashlib.sha1(c["repo"].encode()).hexdigest()[:8], "harness") if c["repo"] != "/repo" else os.path.join(c["verif"], "harness")
-    streams = "enc,rt,mut,rand,exh,decall,count,skip,big,append,mem,bigmem"
+    streams = "enc,rt,mut,rand,exh,decall,count,skip,big,append,mem,bigmem,sinks"
 
     def build(i):
         name, feats = cfgs[i]
